@@ -171,7 +171,7 @@ class _VersionIndependentUnmarshaller:
 
         self.internStrings = []
         self.internObjects = []
-        self.version_tuple = tuple()
+        self.version_tuple = version
         self.is_graal = False
         self.is_pypy = False
 
